@@ -249,6 +249,58 @@ def observe_stages(schema, text, operation_name, variables, executor="blocking",
     return st, None, None
 
 
+def check_stage_hypotheses(ctx, text, stages, failed, detail):
+    """
+    What `Props/C10_stages.lean` still ASSUMES about the stages after parsing (`LaterOk.nodes`) and what it encodes in the
+    TYPES of the composed stage record (`LocatedE`, `IsFieldError`), checked on the real error objects of a request that
+    was submitted as text: validation / variable-coercion errors are plain located errors, the executor's errors are
+    resolver errors carrying a path (a lone path-less one = the root selection could not be collected), and every node
+    with a location starts at a TOKEN of the submitted text (real lexer). Disagreements are about the hypotheses of a
+    theorem, not about the property: kind="correspondence".
+    """
+    from py_gql.lang import Lexer
+    from py_gql.exc import GraphQLSyntaxError
+    if failed == "parse":
+        return
+    try:
+        starts = {t.start for t in Lexer(text)}
+    except GraphQLSyntaxError:
+        ctx.fail("corr:stage-hypothesis:parsed-text-does-not-lex", "the parse stage accepted a text the lexer rejects",
+                 dict(detail), kind="correspondence")
+        return
+    ctx.stat("stage-hypotheses-checked")
+
+    def nodes_ok(stage, e):
+        for n in e.get("nodes") or []:
+            if n is not None and n not in starts:
+                ctx.fail("corr:stage-hypothesis:error-node-not-at-token:" + stage,
+                         "an error of the %s stage carries a node whose position %r is not the start of a token of the text "
+                         "(hypothesis LaterOk.nodes of response_wellformed_pipeline)" % (stage, n), dict(detail, error=e), kind="correspondence")
+                return
+
+    for stage in ("validate", "coerce"):
+        for e in stages.get(stage) or []:
+            if e.get("cls") != "located":
+                ctx.fail("corr:stage-hypothesis:error-class:%s:%s" % (stage, e.get("cls")),
+                         "the %s stage reported an error that is not a plain GraphQLLocatedError (the composed stage record types "
+                         "them as LocatedE)" % stage, dict(detail, error=e), kind="correspondence")
+            else:
+                nodes_ok(stage, e)
+    ex = stages.get("exec")
+    if failed is None and isinstance(ex, dict):
+        errs = ex.get("errors") or []
+        root_failure = ex.get("data") is None and len(errs) == 1 and errs[0].get("path") is None
+        for e in errs:
+            # `located` = the CoercionError of an argument that failed to coerce at execution time (the model's `Out.raised`
+            # with `ext = none`: rendered like a ResolverError without extensions)
+            if e.get("cls") not in ("resolver", "located") or (e.get("path") is None and not root_failure):
+                ctx.fail("corr:stage-hypothesis:error-class:exec:%s" % e.get("cls"),
+                         "the executor registered an error that is not a ResolverError / CoercionError with a response path "
+                         "(executed_errors_are_resolver_errors)", dict(detail, error=e), kind="correspondence")
+            else:
+                nodes_ok("exec", e)
+
+
 # ---------------------------------------------------------------------------
 # outcome trees for the executor model
 
@@ -632,6 +684,8 @@ def check_case(ctx, case, pending):
                 ctx.fail("corr:wellformed:" + (failed or "executed"), "Lean WellFormed and Python well_formed disagree on the real response",
                          dict(detail, lean=ans.get("wf_real"), python=wf_py, real=real), kind="correspondence")
         pending.append(({"op": "process", "stages": stages, "real": real}, on_answer))
+        if form == "str":
+            check_stage_hypotheses(ctx, text, stages, failed, detail)
         if failed is None and world is not None and cfg == "blocking" and form in ("str", "doc"):
             world_s.calls = calls_blocking
             # node position / extensions of the errors of fields that failed WITHOUT their resolver raising (argument
